@@ -228,25 +228,35 @@ def gen_pages(rnd, n):
         steps, groups = [], []
         nreq = [0]
 
-        def deploy(cid, name, host, tgt):
-            steps.append({"op": "deploy", "id": cid, "name": H(name), "hosts": [H(host)], "prefixes": [], "tls": False, "tls_redirect": False,
-                          "strip": False, "cert": "none", "pages": "good", "targets": [{"name": H(tgt), "probes": ["ok"]}],
+        def deploy(cid, name, host, tgt, pages="good", prefixes=()):
+            steps.append({"op": "deploy", "id": cid, "name": H(name), "hosts": [H(host)], "prefixes": [H(x) for x in prefixes], "tls": False,
+                          "tls_redirect": False,
+                          "strip": False, "cert": "none", "pages": pages, "targets": [{"name": H(tgt), "probes": ["ok"]}],
                           "deploy_timeout": m4.DEPLOY_TIMEOUT, "drain_timeout": SEC,
                           "topts": {k: (H(v) if isinstance(v, bytes) else v) for k, v in m4.TOPTS[0].items() if k != "tag"}})
 
-        def stopped(cid, name, host, version):
+        def stopped(cid, name, host, version, base=b""):
             msg = gen_msg(rnd, False)
             steps.append({"op": "stop", "id": cid, "name": H(name), "msg": H(msg), "drain_timeout": SEC})
             ids = []
             for _ in range(rnd.randint(1, 2)):
                 rid = "p%d" % nreq[0]
                 nreq[0] += 1
-                steps.append({"op": "request", "id": rid, "async": False, "host": H(host), "uri": H(rnd.choice([b"/", b"/x?y=1"])), "tls": False,
+                steps.append({"op": "request", "id": rid, "async": False, "host": H(host), "uri": H(base + rnd.choice([b"/", b"/x?y=1"])), "tls": False,
                               "method": rnd.choice(["GET", "POST"]), "headers": []})
                 ids.append(rid)
             groups.append({"version": version, "msg": msg, "ids": ids})
             steps.append({"op": "resume", "id": cid + "r", "name": H(name)})
-        variant = i % 4
+        variant = i % 5
+        if variant == 4:
+            # custom pages for other statuses only (no 503.html): the built-in 503 page, with the message - for the service
+            # that serves the root path and for one under a prefix
+            deploy("c0", b"web", b"a.example.com", b"ta:80", pages="partial")
+            deploy("c1", b"app", b"a.example.com", b"tb:80", pages="partial", prefixes=[b"/app"])
+            stopped("c2", b"web", b"a.example.com", 0)
+            stopped("c3", b"app", b"a.example.com", 0, base=b"/app")
+            out.append({"scenario": {"steps": steps}, "groups": groups, "variant": variant})
+            continue
         deploy("c0", b"web", b"a.example.com", b"ta:80")
         stopped("c1", b"web", b"a.example.com", 1)
         steps.append({"op": "write_pages", "version": 2})
@@ -344,7 +354,7 @@ def run(tier, seed):
                     if bad or after.get("status") != 200 or not after.get("served_by"):
                         held_bad.append((j, bad, after))
         # ---- custom error pages replaced in place between deploys (same monitor, the page version of the service's latest deploy)
-        pgs = gen_pages(random.Random(seed * 37 + 3), 8 if tier == "quick" else 40)
+        pgs = gen_pages(random.Random(seed * 37 + 3), 10 if tier == "quick" else 40)
         pages_bad, pages_n = [], 0
         if harness_ok and ok and page is not None:
             p_ok, p_out, p_outs = m4x.go_run(work, [x["scenario"] for x in pgs])
@@ -358,7 +368,7 @@ def run(tier, seed):
                         obs = ["(false, (%d)%%N, %s, %s)" % (rs.get(i, {}).get("status", 0), bool_lit(bool(rs.get(i, {}).get("served_by"))),
                                                            str_lit(bytes.fromhex(rs.get(i, {}).get("body", "")))) for i in g["ids"]]
                         pages_n += len(obs)
-                        items.append("(%s, %s, [%s])" % (bool_lit(g["version"] == 2), str_lit(g["msg"]), "; ".join(obs)))
+                        items.append("(%d%%nat, %s, [%s])" % (g["version"], str_lit(g["msg"]), "; ".join(obs)))
                         where.append((j, g))
                 defs_p = ("Definition pg_pre : str := %s.\nDefinition pg_suf : str := %s.\n"
                           "Definition env1 := mkEnv (mkPage pg_pre %s %s %s pg_suf) (%s, %s).\n"
@@ -367,7 +377,7 @@ def run(tier, seed):
                              str_lit(CUSTOM[0]), str_lit(CUSTOM[1]), str_lit(page[1]), str_lit(page[2]), str_lit(page[3]),
                              str_lit(CUSTOM2[0]), str_lit(CUSTOM2[1])))
                 rows = m4x.coq_map(work, IMPORTS.replace("corr.C08corr.", "corr.C08corr corr.C08held."), defs_p, items,
-                                   "fun x : bool * str * list held_obs => let '(second, m, l) := x in c08_held_bad (if second then env2 else env1) true m l", "C08pages", shard=4)
+                                   "fun x : nat * str * list held_obs => let '(v, m, l) := x in c08_held_bad (if Nat.eqb v 2 then env2 else env1) (negb (Nat.eqb v 0)) m l", "C08pages", shard=4)
                 for (j, g), bad in zip(where, rows):
                     if bad:
                         pages_bad.append((j, g, bad))
